@@ -315,7 +315,7 @@ pub fn run(ctx: &Ctx, report: &mut Report) -> EvidenceMeta {
     ctx.run_part(&CascadePart, report);
     EvidenceMeta {
         level: "exploration",
-        rule: "proptest-generated groups of 2..3 real instances put into generated mutual-knowledge states through real calls (each knows each other under its current / an older / a newer identity as Alive, Suspect or Down, at incarnation 0..2 or MAX; third-party members; pending updates and custom broadcasts; itself active, idle or Defunct via leave_cluster), identities that renew, do not, or renew badly (same / losing identity), notify_down_members on/off per instance, max_transmissions 1..5, fan-out 1..3; then ONE trigger (a datagram of any of the 11 kinds between two of them, possibly under stale identities and with updates about the participants, or announce / gossip / broadcast) and, with all timers held, a generated delivery order (FIFO, LIFO, random) of everything that results, fed back until the network is empty. Oracle: every delivery causes at most (u+2)*num_indirect_probes + 2 new datagrams (u = updates about the receiver in that datagram) and the network empties within a budget derived from the case (64 + 4*(2f+2)*k*max_tx*(S+1), S = Suspect entries present at the start); measured cascade lengths are reported. A cascade that exceeds the budget is reported with the repeating tail. Non-trivial: cascade of >= 3 deliveries or a mutual-Down pair; distinct = (k, length, mutual Down, kinds seen, order)."
+        rule: "proptest-generated groups of 2..3 real instances put into generated mutual-knowledge states through real calls (each knows each other under its current / an older / a newer identity as Alive, Suspect or Down, at incarnation 0..2 or MAX; each instance itself at incarnation 0, 1..3, MAX-1 or MAX; third-party members; pending updates and custom broadcasts; itself active, idle or Defunct via leave_cluster), identities that renew, do not, or renew badly (same / losing identity), notify_down_members on/off per instance, max_transmissions 1..5, fan-out 1..3; then ONE trigger (a datagram of any of the 11 kinds between two of them, possibly under stale identities and with updates about the participants, or announce / gossip / broadcast) and, with all timers held, a generated delivery order (FIFO, LIFO, random) of everything that results, fed back until the network is empty. Oracle: every delivery causes at most (u+2)*num_indirect_probes + 2 new datagrams (u = updates about the receiver in that datagram) and the network empties within a budget derived from the case (64 + 4*(2f+2)*k*max_tx*(S+1), S = Suspect entries present at the start); measured cascade lengths are reported. A cascade that exceeds the budget is reported with the repeating tail. Non-trivial: cascade of >= 3 deliveries or a mutual-Down pair; distinct = (k, length, mutual Down, kinds seen, order)."
             .into(),
         assumptions: vec!["timers are held for the whole cascade (the statement's premise); datagrams to addresses outside the group are dropped".into()],
     }
